@@ -85,6 +85,63 @@ func vh_C19_SortSlice() {
 	vfReach("end")
 }
 
+// Stability beyond the sizes at which an unstable library sort happens to be stable (sort.Slice is an insertion sort up
+// to 12 elements): 13..14 records whose keys follow the fixed tie pattern (i*7)%3, through every comparator-based
+// entry point. Keys are concrete here (the point is the size), so this is one path per entry point and size.
+type c19Big struct {
+	K   ComparableOrdered[int]
+	Idx int
+}
+
+func vh_C19_StableAtScale() {
+	n := vfRange("n", 13, 14)
+	in := make([]c19Rec, n)
+	rows := make([]c19Big, n)
+	for i := range in {
+		in[i] = c19Rec{K: (i * 7) % 3, Idx: i}
+		rows[i] = c19Big{K: NewComparableOrdered((i * 7) % 3), Idx: i}
+	}
+	orig := c19Copy(in)
+	less := func(a, b c19Rec) bool { return a.K < b.K }
+	switch vfChoose("entry", 5) {
+	case 0:
+		if vfNoPanic("nopanic", func() { Sort(less, in) }) {
+			c19Check("sort-", orig, in, less)
+		}
+	case 1:
+		var out []c19Rec
+		if vfNoPanic("nopanic", func() { out = SortSlice(less, in...) }) {
+			c19Check("sortslice-", orig, out, less)
+		}
+	case 2:
+		var out *StreamDef[c19Rec]
+		if vfNoPanic("nopanic", func() { out = StreamFromArray(in).Sort(less) }) {
+			c19Check("stream-sort-", orig, []c19Rec(*out), less)
+		}
+	case 3:
+		s := StreamFromArray(in)
+		var out *StreamDef[c19Rec]
+		if vfNoPanic("nopanic", func() { out = s.SortByIndex(func(i, j int) bool { return (*s)[i].K < (*s)[j].K }) }) {
+			c19Check("stream-sortbyindex-", orig, []c19Rec(*out), less)
+		}
+	default:
+		var out []c19Big
+		d := NewSimpleSortDescriptor(func(r c19Big) Comparable[interface{}] { return r.K }, true)
+		if vfNoPanic("nopanic", func() { out = SortedListBySortDescriptors([]SortDescriptor[c19Big]{d}, rows...) }) {
+			stable, ordered := len(out) == n, true
+			for i := 0; i+1 < len(out); i++ {
+				ordered = ordered && out[i].K.Val <= out[i+1].K.Val
+				if out[i].K.Val == out[i+1].K.Val && out[i].Idx > out[i+1].Idx {
+					stable = false
+				}
+			}
+			vfAssert("descriptors-ordered", ordered)
+			vfAssert("descriptors-stable", stable)
+		}
+	}
+	vfReach("end")
+}
+
 func vh_C19_SortOrdered() {
 	l := vfIntList("l", c19N(), 0)
 	orig := append([]int{}, l...)
